@@ -1040,7 +1040,7 @@ func (vc *FnVC) emitPost(fr *Frame, guard *Term, results []*Term, st *State) {
 		if label == "" {
 			label = fmt.Sprintf("%d", i+1)
 		}
-		vc.oblige("post:"+label, "post", c.Props, c.Line, guard, t, c.Expr)
+		vc.obligeNoAssume("post:"+label, "post", c.Props, c.Line, guard, t, c.Expr)
 	}
 	vc.emitFrame(fr, guard, st)
 	// "sets G := e" of an own contract is also a postcondition: final G equals e over the entry state
@@ -1056,7 +1056,7 @@ func (vc *FnVC) emitPost(fr *Frame, guard *Term, results []*Term, st *State) {
 		if strings.HasPrefix(comp, "g:") {
 			continue // ghost bookkeeping is defined by the contract; there is no code to compare it with
 		}
-		vc.oblige("post:sets:"+c.Var, "post", c.Props, c.Line, guard, Eq(st.Get(vc.g, comp), t), c.Var+" := "+c.Expr)
+		vc.obligeNoAssume("post:sets:"+c.Var, "post", c.Props, c.Line, guard, Eq(st.Get(vc.g, comp), t), c.Var+" := "+c.Expr)
 	}
 }
 
